@@ -93,6 +93,8 @@ func VerifC18Validate(section int) {
 		b.TimeoutSeconds, b.IntervalSeconds = verifrt.Int("breaker.timeout"), verifrt.Int("breaker.interval")
 		b.MaxRequests = verifrt.IntRange("breaker.max_requests", 0, 1<<31)
 		bOK := verifrt.And(b.FailureThreshold > 0, verifrt.And(b.SuccessThreshold > 0, verifrt.And(b.TimeoutSeconds > 0, b.IntervalSeconds > 0)))
+		// documented with the sample files: max_requests is at least success_threshold (0 / unset = success_threshold)
+		bOK = verifrt.And(bOK, verifrt.Or(b.MaxRequests == 0, b.SuccessThreshold <= b.MaxRequests))
 		ok = verifrt.And(ok, verifrt.Implies(b.Enabled, bOK))
 	}
 	if all || section == 7 {
